@@ -315,6 +315,7 @@ func (c *UConn) HandshakeContext(ctx context.Context) error {
 }
 
 func (c *UConn) handshakeContext(ctx context.Context) (ret error) {
+	verifGate(c.Conn, "entry")
 	// Fast sync/atomic-based exit if there is no handshake in flight and the
 	// last one succeeded without an error. Avoids the expensive context setup
 	// and mutex for most Read and Write calls.
@@ -349,10 +350,12 @@ func (c *UConn) handshakeContext(ctx context.Context) (ret error) {
 		go func() {
 			select {
 			case <-handshakeCtx.Done():
+				verifGate(c.Conn, "intr_ctx")
 				// Close the connection, discarding the error
 				_ = c.conn.Close()
 				interruptRes <- handshakeCtx.Err()
 			case <-done:
+				verifGate(c.Conn, "intr_done")
 				interruptRes <- nil
 			}
 		}()
@@ -360,6 +363,7 @@ func (c *UConn) handshakeContext(ctx context.Context) (ret error) {
 
 	c.handshakeMutex.Lock()
 	defer c.handshakeMutex.Unlock()
+	verifGate(c.Conn, "locked")
 
 	if err := c.handshakeErr; err != nil {
 		return err
@@ -388,7 +392,9 @@ func (c *UConn) handshakeContext(ctx context.Context) (ret error) {
 		verifEmit(c.Conn, "hello_rebuilt", c.HandshakeState.Hello.Raw)
 	}
 	// [uTLS section ends]
+	verifGate(c.Conn, "pre_fn")
 	c.handshakeErr = c.handshakeFn(handshakeCtx)
+	verifGate(c.Conn, "post_fn")
 	if c.handshakeErr == nil {
 		c.handshakes++
 	} else {
